@@ -81,6 +81,20 @@ class _Canon(ast.NodeTransformer):
 
     def visit_Call(self, n):
         self.generic_visit(n)
+        # 'literal {a}'.format(a=x, b=y)  ->  'literal {a}'.format(a=x)    (a pure keyword the template does not mention)
+        if isinstance(n.func, ast.Attribute) and n.func.attr == 'format' and isinstance(n.func.value, ast.Constant) and isinstance(n.func.value.value, str) \
+                and n.keywords and all(k.arg is not None for k in n.keywords):
+            import string as _string
+            try:
+                parts_ = list(_string.Formatter().parse(n.func.value.value))
+                named = None if any(_s and '{' in _s for _l, f_, _s, _c in parts_) else {f_.split('.')[0].split('[')[0] for _l, f_, _s, _c in parts_ if f_}
+            except ValueError:
+                named = None
+            if named is not None:
+                keep = [k for k in n.keywords if k.arg in named or not is_pure(k.value)]
+                if len(keep) != len(n.keywords):
+                    self.stats['canon_format_unused_kw'] = self.stats.get('canon_format_unused_kw', 0) + 1
+                    n.keywords = keep
         # (lambda a, b: E)(x, y)  ->  E[a := x, b := y]   for pure arguments
         if isinstance(n.func, ast.Lambda) and not n.keywords and not n.func.args.defaults and not n.func.args.vararg and not n.func.args.kwarg \
                 and not n.func.args.kwonlyargs and len(n.func.args.args) == len(n.args) and all(is_pure(a) and not isinstance(a, ast.Starred) for a in n.args):
@@ -2188,7 +2202,8 @@ def eliminate_holders(tree, fn, new_classes, stats):
                 if sum(1 for x in occ if isinstance(x.ctx, ast.Store)) != 1:
                     continue
                 body = _doc_stripped(init.body)
-                if not all(isinstance(b_, ast.Assign) for b_ in body):
+                # (assignments - also chained - and plain call statements such as a log line)
+                if not all(isinstance(b_, ast.Assign) or (isinstance(b_, ast.Expr) and isinstance(b_.value, ast.Call)) for b_ in body):
                     continue
                 b = _bind(init, st.value, True)
                 if b is None or any(not is_pure(a_) for _p, a_ in b):
